@@ -1,4 +1,5 @@
 import TddaVerif.Drv.Util
+import TddaVerif.Model.DetectOut
 import TddaVerif.Model.Constraints
 open Lean TddaVerif.Drv TddaVerif.Constraints
 
@@ -133,6 +134,10 @@ def handle (op : String) (j : Json) : Option (R Json) :=
       | .error _ => throw "UnboundLocalError"
       | .ok none => pure Json.null
       | .ok (some ks) => pure (ofList constraintJson ks)
+  | "c06.written" => some do
+      let nf ← asList asNat (← fld j "nf")
+      let wa ← asBool (← fld j "write_all")
+      pure (ofList (fun p => Json.arr #[ofNat p.1, ofNat p.2]) (TddaVerif.DetectOut.written nf wa))
   | "cx.detect" => some do
       let cfg ← parseCfg (← fld j "cfg")
       let c ← parseColumn (← fld j "col")
